@@ -4,6 +4,7 @@ import (
 	"encoding/json"
 	"fmt"
 	"io"
+	"reflect"
 	"strings"
 
 	"github.com/kstenerud/go-concise-encoding/cbe"
@@ -167,6 +168,13 @@ func c29ExtraValues() []gen.GV {
 func c29Run(c *fx.Ctx) {
 	// write side: marshal entry points × value corpus × every write call × fault kind × {io.Writer, io.StringWriter}
 	vals := append(gen.GoValues(0), c29ExtraValues()...)
+	if c.Thorough() { // a third of the full marshal corpus of C04/C05
+		for i, g := range gen.GoValues(1) {
+			if i%3 == 0 && !containsMap(reflect.TypeOf(g.V)) {
+				vals = append(vals, g)
+			}
+		}
+	}
 	for _, g := range vals {
 		if leafKind(g.Class) == "edge" {
 			continue
@@ -248,7 +256,7 @@ func init() {
 	register(&fx.Check{
 		ID:    "C29",
 		Level: "fault_enumeration",
-		Rule: "every position of a single injected failure: (write) 4 marshal entry points × the small Go value corpus × both destination kinds (plain io.Writer and io.StringWriter) × every Write/WriteString call index of the fault-free run × {0 or 1 bytes accepted} × {fails once, keeps failing}; " +
+		Rule: "every position of a single injected failure: (write) 4 marshal entry points × the small Go value corpus (thorough: plus a third of the full marshal corpus) × both destination kinds (plain io.Writer and io.StringWriter) × every Write/WriteString call index of the fault-free run × {0 or 1 bytes accepted} × {fails once, keeps failing}; " +
 			"(encode) the CBE and CTE low-level encoders driven event by event over the I/O document corpus with the same fault scripts: the event during which the write fails must report it; " +
 			"(read) 6 reader entry points × every document × every Read call index (incl. the call that would return EOF) × the 4 fault kinds, with full reads and with one-byte reads (every byte offset); oracle: the call returns a non-nil error whenever a failure was injected, and no panic escapes; distinct_nontrivial = distinct (entry, input, destination kind)",
 		Assumptions: []string{"a conforming io.Writer reports an error whenever it accepts fewer bytes than given, so only (k, err) answers are injected", "low-level encoders report by panicking (documented contract)"},
@@ -269,7 +277,7 @@ func init() {
 					}
 				}
 			case "write":
-				for _, g := range append(gen.GoValues(0), c29ExtraValues()...) {
+				for _, g := range append(append(gen.GoValues(0), c29ExtraValues()...), gen.GoValues(1)...) {
 					if g.Name != w.Value {
 						continue
 					}
